@@ -458,6 +458,9 @@ fn body(ctx: &Ctx) -> (Summary, Meta) {
         let mut lin = alpha::subsets_axes(&vs, "v", 2, if quick { 3 } else { 5 });
         lin.extend(alpha::full_word_axes(&alpha::h3(), "w", 2, if quick { 4 } else { 6 }, &alpha::OFFSETS));
         lin.extend(alpha::long_word_axes(&alpha::h4(), "L", &[8, 40], 1, &[0.0]));
+        if !f32 {
+            lin.extend(alpha::full_word_axes(&alpha::h3(), "w", 2, 4, &[1099511627776.0, -1099511627776.0]));
+        }
         for a in lin {
             if a.name.starts_with("w[") && a.n() <= 4 && a.name.ends_with("@0") {
                 let e = if f32 { 50 } else { 400 };
@@ -483,6 +486,7 @@ fn body(ctx: &Ctx) -> (Summary, Meta) {
         };
         if !f32 {
             sp.extend(alpha::full_word_axes(&alpha::hw(), "W", 3, if quick { 4 } else { 5 }, &[0.0]));
+            sp.extend(alpha::full_word_axes(&alpha::h3(), "w", 3, 4, &[1099511627776.0]));
         }
         for a in sp {
             for spec in bc_configs(a.n() + 8, a.n()) {
